@@ -101,3 +101,16 @@ Check (C17_step_allowed_all_calls : forall cx s g ev s' out tags,
   inv s g -> wf_ctx cx -> wf_event_x ev ->
   tcp_step_x cx s ev = Ok (s', out, tags) ->
   allowed_x s g cx ev (s_state s') /\ inv s' (ghost_step_x cx s g ev s' out)).
+
+Check (C17_listen_sets_endpoint : forall s ep s',
+  tcp_listen s ep = Ok s' -> s_listen_endpoint s' = ep /\ s_state s' = Listen).
+
+Check (C17_relisten_restores_endpoint : forall cx s ip r s' out tags,
+  wf_repr r -> tcp_step cx s (EvSegment ip r) = Ok (s', out, tags) ->
+  s_listen_endpoint s' = s_listen_endpoint s /\
+  (s_state s = SynReceived -> s_state s' = Listen -> s_tuple s' = None)).
+
+Check (C17_bound_listener_ignores_other_address : forall cx s ip r a s' out tags,
+  s_state s = Listen -> s_tuple s = None -> le_addr (s_listen_endpoint s) = Some a ->
+  ip_dst ip <> a ->
+  tcp_step cx s (EvSegment ip r) = Ok (s', out, tags) -> s' = s).
